@@ -241,6 +241,11 @@ func main() {
 			usage()
 		}
 		os.Exit(runReplay(os.Args[2]))
+	case "conform-dump":
+		if len(os.Args) < 3 {
+			usage()
+		}
+		os.Exit(conformDump(os.Args[2]))
 	case "list":
 		var ids []string
 		for id := range checks {
